@@ -7,6 +7,8 @@ import (
 	"fmt"
 
 	sdk "github.com/cosmos/cosmos-sdk/types"
+	authtypes "github.com/cosmos/cosmos-sdk/x/auth/types"
+	banktypes "github.com/cosmos/cosmos-sdk/x/bank/types"
 
 	"github.com/ovrclk/akash/types"
 	"github.com/ovrclk/akash/types/unit"
@@ -185,6 +187,14 @@ func aUnsign(auditor, p string, keys []string, label string) Action {
 		}}
 }
 
+// aSendToEscrow: a plain bank transfer to the escrow module account (must be refused: blocked address).
+func aSendToEscrow(from string, amt int64) Action {
+	return Action{Name: fmt.Sprintf("BankSendToEscrow(%s,%d)", from, amt), Kind: "SendToEscrow", Signer: from, Tag: tag("owner", from),
+		Msg: func(c *Cast) sdk.Msg {
+			return &banktypes.MsgSend{FromAddress: c.S(from), ToAddress: authtypes.NewModuleAddress("escrow").String(), Amount: sdk.NewCoins(coin(amt))}
+		}}
+}
+
 // ---- scenarios ----
 
 var noReq = types.PlacementRequirements{}
@@ -214,6 +224,7 @@ func scEscrow() Scenario {
 		aDeposit("T1", 1, 3),
 		aCloseDeployment("T1", 1),
 		aGroup("CloseGroup", "T1", 1, 1), aGroup("PauseGroup", "T1", 1, 1), aGroup("StartGroup", "T1", 1, 1),
+		aSendToEscrow("B", 1),
 	)
 	sc.Alphabet = al
 	return sc
